@@ -138,7 +138,12 @@ func main() {
 		if e == nil {
 			os.Exit(2)
 		}
-		sim.RunPrelude(e, s, func(p *sim.Script) { e.Exec(p, false) })
+		// a line per execution (each run of the prelude, then the script) lets the
+		// parent see progress and time each execution by itself; this process keeps
+		// no timer of its own, so that the Go runtime can still report "all
+		// goroutines are asleep" when nothing can ever run again
+		sim.RunPrelude(e, s, func(p *sim.Script) { os.Stdout.WriteString("EXEC\n"); e.Exec(p, false) })
+		os.Stdout.WriteString("EXEC\n")
 		e.Exec(s, false)
 	case "selftest":
 		exe, _ := os.Executable()
